@@ -8,6 +8,7 @@ from props import base
 from props.base import Context  # noqa: F401
 
 PID = 'C03'
+EXTRA_MODULES = ['DiffxVerif.Properties.C03File']
 TIE_MODULES = ['DiffxVerif.Tie.Sections', 'DiffxVerif.Tie.Spec']
 NEEDS = ['sections', 'options', 'text', 'spec_tree']
 ASSUMPTIONS = [
